@@ -227,6 +227,9 @@ def store_jobs(tier, rnd):
                     sl = [l for l in ls if l["cat"] == ""]
                     situ = (any(i["norm"] == nm for l in ls for i in l["items"]), bool(sl), bool(sl and sl[0]["last"] > 0))
                 vkinds = situ + tuple(sorted({x[1] for x in e.get("packet", [])} | ({e["v"]} if "v" in e else set())))     # value tokens: lists / tables are serialised (more allocations, other failure paths)
+                # a category argument is absent (NULL), the reserved empty string, or a string that has to be copied
+                if "category" in e:
+                    vkinds = vkinds + ("cat:" + ("NULL" if e["category"] == "NULL" else "empty" if e["category"] == "" else "named"),)
                 shape = (e["op"], e.get("rc"), c["same"], len(e.get("names", [])), len(e.get("packet", [])), bool(o["s"]["tx"].get(e.get("cif", "c1"))) if isinstance(o["s"]["tx"], dict) else False, vkinds)
                 classes[shape].append((o["h"], o["s"], e, c["s2"], c["same"]))
         cleanup(wd)
